@@ -1436,10 +1436,23 @@ class LegCharge:
             If perm_flat mixes blocks of different qindex.
 
         """
-        perm_flat = np.asarray(perm_flat)
-        perm_qind = perm_flat[self.slices[:-1]]
+        perm_flat = np.asarray(perm_flat, dtype=np.intp)
+        sizes = self.get_block_sizes()
+        # walk through perm_flat block by block: the first index of each block tells which qindex it is
+        perm_qind = []
+        pos = 0
+        while pos < len(perm_flat) and len(perm_flat) == self.ind_len:
+            qi = bisect.bisect(self.slices, perm_flat[pos]) - 1
+            if not 0 <= qi < self.block_number:
+                break
+            perm_qind.append(qi)
+            pos += sizes[qi]
+        perm_qind.extend([qi for qi in range(self.block_number) if sizes[qi] == 0])  # empty blocks: any place
+        perm_qind = np.array(perm_qind, dtype=np.intp)
         # check if perm_qind indeed resembles the permutation
-        if np.any(perm_flat != self.perm_flat_from_perm_qind(perm_qind)):
+        if sorted(perm_qind) != list(range(self.block_number)) or np.any(
+            perm_flat != self.perm_flat_from_perm_qind(perm_qind)
+        ):
             raise ValueError('Permutation mixes qind')
         return perm_qind
 
